@@ -67,6 +67,13 @@ def evaluate(case):
         r = r.astype(np.int64)
     fails = []
     with np.errstate(all="ignore"):
+        # another FourierFilter in the same process that just filtered with other switches: nothing of it reaches this one
+        try:
+            dkw = dict(kw, lorch=not kw.get("lorch", False), OmittedXrangeCorrection=not kw.get("OmittedXrangeCorrection", False))
+            type(ff)().g_using_FK(r, g, q, f, cutoff, dg, df, **dkw)
+            type(ff)().G_using_DCS(r, g, q, f + kw["<b_tot^2>"], cutoff, dg, df, **dkw)
+        except Exception:  # noqa: BLE001
+            pass
         guard = Unchanged(r, g, q, f, dg, df)
         ref = [np.asarray(o, dtype=float) for o in ff.g_using_F(r, g, q, f, cutoff, dg, df, **kw)]
         if guard.violated():
